@@ -345,6 +345,9 @@ func c07alphabet() []c07op {
 		call("12", 'G'), call("12", 'i'), call(`"a"`, 'G'), call(`"1"`, 'G'), call("1", 'b'),
 		call("", 'G'), // gated notification: parks the dispatcher for later messages
 		batch(c07member{ID: "1", Kind: 'G'}, c07member{ID: "1", Kind: 'G'}),
+		// an id three and four times in one batch, next to an innocent member: all bearers fail
+		batch(c07member{ID: "1", Kind: 'G'}, c07member{ID: "1", Kind: 'i'}, c07member{ID: "1", Kind: 'G'}),
+		batch(c07member{ID: "1", Kind: 'i'}, c07member{ID: "12", Kind: 'i'}, c07member{ID: "1", Kind: 'i'}, c07member{ID: "1", Kind: 'e'}, c07member{ID: "1", Kind: 'i'}),
 		batch(c07member{ID: "1", Kind: 'G'}, c07member{ID: "12", Kind: 'i'}),
 		batch(c07member{ID: "1", Kind: 'n'}, c07member{ID: "12", Kind: 'G'}),
 		{Kind: "cancel", ID: "1"}, {Kind: "cancel", ID: "12"},
